@@ -104,9 +104,12 @@ class ThreadPool(object):
         if self.pool_size < 2:
             for func, arg in func_args:
                 try:
-                    yield func(*arg)
+                    result = func(*arg)
                 except Exception:
-                    yield sys.exc_info()
+                    if raise_exceptions:
+                        raise
+                    result = sys.exc_info()
+                yield result
             return
 
         self.pool = self._init_pool()
